@@ -21,6 +21,9 @@ RICH = {
     "core_widgets.py": "class Widget:\n    pass\n",
     "core_extra.py": "class Gadget:\n    pass\n\n\nHandle = Gadget\n\n\ndef extra(h: Handle) -> Handle:\n    ...\n",
     "core.py": "from typing import Final\n\nfrom detpk.core_widgets import Widget\n\nHandle = Widget\n\n\nclass Holder:\n    handle: Final[Handle] = Widget()\n\n    def get(self, h: Handle) -> Handle:\n        ...\n",
+    # one class name imported from two libraries that are not installed (the type checker knows only the import)
+    "unres_a.py": "from gadgetlib_one import Widget\n\n\ndef fa(w: Widget) -> Widget:\n    ...\n",
+    "unres_z.py": "from gadgetlib_two import Widget\n\n\ndef fz(w: Widget) -> Widget:\n    ...\n",
     "dup1.py": "class Same:\n    pass\n\n\ndef use1(a: list[Same, int], b: set[Same, str]) -> Same:\n    ...\n",
     "dup2.py": "class Same:\n    pass\n\n\ndef use2(a: list[Same, int]) -> Same:\n    ...\n",
     "user.py": '''from __future__ import annotations
